@@ -105,6 +105,9 @@ class PythonCV2XLinkLayer(LinkLayer):
                     self.receive_callback(data)
                 except NotImplementedError as e:
                     print("Error decoding packet: " + str(e))
+                except Exception as e:  # pylint: disable=broad-except
+                    # no received frame may terminate the receive loop
+                    print("Error processing packet: " + str(e))
 
     def stop(self) -> None:
         """
